@@ -12,10 +12,10 @@ vars == <<phase, idx, enc, dec, n>>
 
 \* phase "machine": enc/dec states and number of steps; phases "block"/"bad": idx picks a sample
 Init == \/ /\ phase = "machine" /\ idx = -1 /\ enc \in 0..7 /\ dec = enc /\ n = 0
-        \/ /\ phase \in {"block", "bad", "struct", "comp"} /\ idx = -1 /\ enc = 0 /\ dec = 0 /\ n = 0
+        \/ /\ phase \in {"block", "bad", "struct", "comp", "aimed"} /\ idx = -1 /\ enc = 0 /\ dec = 0 /\ n = 0
 
 Size(ph) == CASE ph = "block" -> Len(D.blocks) [] ph = "bad" -> Len(D.bad) [] ph = "struct" -> 1
-                    [] ph = "comp" -> Len(D.comp) [] OTHER -> 0
+                    [] ph = "comp" -> Len(D.comp) [] ph = "aimed" -> Len(D.aimed) [] OTHER -> 0
 
 Next == \/ /\ phase = "machine" /\ n < MaxLen
            /\ \E t \in 0..7 : /\ enc' = t
@@ -57,6 +57,16 @@ Judge(ph, i) ==
                                       IN IF prev = -1 THEN -1 ELSE DecStep(D.T, prev, Pt(q - 1))
              model == IF Run[49] = -1 THEN "rejected" ELSE "decoded"
          IN [why |-> IF ~reachable /\ s.outcome # "rejected" THEN "UnreachablePointRejected" ELSE "ok",
+             dr |-> IF model # s.outcome THEN "decoder-run-differs-from-model" ELSE "ok"]
+    [] ph = "aimed" ->
+         \* a whole stream of 49 constellation points laid out by the harness: a valid prefix, one point no successor of the
+         \* state reached can emit, and a tail that is a valid continuation from the state a lenient decoder would assume
+         LET s == D.aimed[i + 1]
+             Run[q \in 0..49] == IF q = 0 THEN 0
+                                 ELSE LET prev == Run[q - 1]
+                                      IN IF prev = -1 THEN -1 ELSE DecStep(D.T, prev, s.points[q])
+             model == IF Run[49] = -1 THEN "rejected" ELSE "decoded"
+         IN [why |-> IF model = "rejected" /\ s.outcome # "rejected" THEN "UnreachablePointRejected" ELSE "ok",
              dr |-> IF model # s.outcome THEN "decoder-run-differs-from-model" ELSE "ok"]
     [] ph = "comp" ->
          \* the two permutations composed by a caller that hands the result of one straight to the other:
